@@ -34,7 +34,12 @@ func init() {
 		NeedsCG:     true,
 		Rules: []core.Rule{
 			{ID: "C02-R1", Title: "step handlers are dispatched under exactly one step constant, and the constants chain", Decides: "reordered / repeated messages are rejected", Floor: 4, Run: c02r1},
-			{ID: "C02-R2", Title: "the key-exchange-enabling state is reachable only through the proof-verified branch", Decides: "no stored key without the setup-code proof", Floor: 3, Run: c02r2},
+			{ID: "C02-R2", Title: "the key-exchange-enabling state is reachable only through the proof-verified branch", Decides: "no stored key without the setup-code proof", Floor: 3, Run: func(c *core.Ctx) {
+				// what the proof proves: the verifier is derived from the setup code (SRP parameters, shared with C04-R2) — a key
+				// derivation that leaves the code out makes every proof valid
+				c04r2(c)
+				c02r2(c)
+			}},
 			{ID: "C02-R3", Title: "SaveEntity is dominated by AEAD-open-ok under the session key and signature-ok", Decides: "only a correctly authenticated and signed key-exchange stores", Floor: 4, Run: c02r3},
 			{ID: "C02-R4", Title: "stored name and key are the signed name and key", Decides: "exactly that name and key", Floor: 3, Run: c02r4},
 			{ID: "C02-R5", Title: "one controller per connection", Decides: "on that same connection and exchange", Floor: 2, Run: c02r5},
